@@ -9,6 +9,8 @@ import (
 	"maps"
 	"slices"
 	"sort"
+	"strings"
+	"unicode/utf8"
 
 	"github.com/spq/pkappa2/internal/query"
 	"github.com/spq/pkappa2/internal/tools/bitmask"
@@ -97,6 +99,20 @@ const (
 // literalPrefix returns the literal prefix of the regex that find may use to skip parts of the buffer.
 // Skipping changes what ^ and \b see, and an anchored expression is reported as its literal, so there is none
 // for expressions with assertions.
+// quoteBytes returns an expression that matches the bytes of s literally. Bytes that are
+// not ASCII are escaped: an expression has to be valid UTF-8, captured payload need not be.
+func quoteBytes(s string) string {
+	b := strings.Builder{}
+	for i := 0; i < len(s); i++ {
+		if s[i] >= utf8.RuneSelf {
+			fmt.Fprintf(&b, `\x%02x`, s[i])
+			continue
+		}
+		b.WriteString(binaryregexp.QuoteMeta(s[i : i+1]))
+	}
+	return b.String()
+}
+
 func literalPrefix(re *binaryregexp.Regexp, expr string) (string, bool, error) {
 	prefix, complete := re.LiteralPrefix()
 	if prefix != "" {
@@ -243,7 +259,7 @@ func (dcc *dataConditionsContainer) finalize(r *Reader, queryPartIndex int, prev
 					if d.queryParts.IsSet(uint(queryPartIndex)) && d.name != v {
 						continue
 					}
-					quoted += binaryregexp.QuoteMeta(d.value) + "|"
+					quoted += quoteBytes(d.value) + "|"
 				}
 				if quoted == "" {
 					badVarData[vdi] = struct{}{}
@@ -684,7 +700,7 @@ func (ps *progressGroup) prepare(r *regex, pIdx int, e *query.DataConditionEleme
 			if !ok {
 				return nil, fmt.Errorf("variable %q not defined", v.Name)
 			}
-			content = binaryregexp.QuoteMeta(content)
+			content = quoteBytes(content)
 		} else {
 			psq := possibleSubQueries[v.SubQuery]
 			vIdx := psq.variableIndex[v.Name]
